@@ -547,6 +547,56 @@ def c14_check():
     return None
 
 
+def c08_suite():
+    """(text, byte offset of the literal, spelling, expected type, expected payload string) for literal spellings whose
+    value is computed here, independently of the lexer: decimal / hexadecimal integers, floats, exponent notation."""
+    import struct
+    out = []
+
+    def fbits(x):
+        return "F%016x" % struct.unpack("<Q", struct.pack("<d", x))[0]
+    ints = ["0", "7", "42", "007", "123456789", "18446744073709551615", "4294967296"]
+    floats = ["1.5", "0.25", ".5", "10.", "3.14159", "1e3", "1E3", "2.5e-3", "1e+2", "7E0", "12.5E1", "18446744073709551616", "99999999999999999999"]
+    hexes = ["0fx", "0FX", "1Ax", "9x", "12X", "0ffx", "1E1x", "0e0X", "12E5Fx", "007E308x", "1e2x", "0abcdefx", "0ABCDEFX", "1AE1x", "02Ax", "0FFFFFFFFFFFFFFFFx", "1Ex", "0dx", "0Bx"]
+    for ctx_pre, ctx_suf in (("v=", ";"), ("x = a + ", " ;"), ("if y > ", " then z;")):
+        for sp in ints:
+            out.append((ctx_pre + sp + ctx_suf, len(ctx_pre.encode()), sp, "IntegerLiteral", "I%d" % int(sp)))
+        for sp in floats:
+            tt = "FloatExponentLiteral" if ("e" in sp or "E" in sp) else "FloatLiteral"
+            out.append((ctx_pre + sp + ctx_suf, len(ctx_pre.encode()), sp, tt, fbits(float(sp))))
+        for sp in hexes:
+            v = int(sp[:-1], 16)
+            if v <= 0xFFFFFFFFFFFFFFFF:
+                out.append((ctx_pre + sp + ctx_suf, len(ctx_pre.encode()), sp, "IntegerLiteral", "I%d" % v))
+    # standalone operands of macro arithmetic: integers always, floats in %sysevalf only
+    for sp in ("0", "42", "007", "1e3x", "0fx", "1AX"):
+        v = int(sp[:-1], 16) if sp[-1] in "xX" else int(sp)
+        for pre, suf in (("%eval(", " + 1)"), ("%sysevalf(", "*2)"), ("%if ", " %then %put a;")):
+            out.append((pre + sp + suf, len(pre.encode()), sp, "IntegerLiteral", "I%d" % v))
+    for sp in ("1.5", "2e3", ".25"):
+        tt = "FloatExponentLiteral" if "e" in sp else "FloatLiteral"
+        out.append(("%sysevalf(" + sp + " + 1)", len("%sysevalf("), sp, tt, fbits(float(sp))))
+    return out
+
+
+def c08_check():
+    suite = c08_suite()
+    d, idx = _write_dir("c08", [t for t, _, _, _, _ in suite])
+    for kind in (("plain", "debug"), ("plain", "release")):
+        res = _run_many(BIN[kind], ["dumpm"], d)
+        for i, (text, off, sp, tt, pl) in enumerate(suite):
+            r = res.get("%06d.sas" % i, ["?"])
+            if not r[0].startswith("DUMP"):
+                continue
+            toks = [ln.split(" ") for ln in r if ln.startswith("T ")]
+            hit = [t for t in toks if int(t[4]) == off]
+            end = off + len(sp.encode())
+            if not hit or int(hit[0][5]) != end or hit[0][2] != tt or hit[0][-1] != pl:
+                got = (hit[0][2], hit[0][4], hit[0][5], hit[0][-1]) if hit else None
+                return text, f"[{kind[0]}/{kind[1]}] numeric literal {sp!r}: expected one {tt} token [{off}, {end}) with payload {pl}, got {got}"
+    return None
+
+
 def _save(pid, text):
     os.makedirs(os.path.join(REPLAYS_OUT, pid), exist_ok=True)
     h = hashlib.sha256(text.encode("utf-8")).hexdigest()[:16]
@@ -558,6 +608,10 @@ def _save(pid, text):
 
 def search(pid, inputs, cfg="debug"):
     """First input (in order) on which the natively built lexer violates `pid`. Returns (text, msg) or None."""
+    if pid == "C08":
+        hit = c08_check()
+        if hit is not None:
+            return hit
     if pid in SINGLE_RUN:
         d, idx = _write_dir(f"cand-{pid}", inputs)
         kinds = [("plain", "debug"), ("plain", "release"), ("sep", "debug"), ("sep", "release")]
